@@ -1,5 +1,6 @@
-(* C28: TrackLocalStaticSample.WriteSample (track_local_static.go) together with
-   the pion/rtp packetizer/sequencer contract it drives.  The transcription is
+(* C28: TrackLocalStaticSample.WriteSample and GeneratePadding
+   (track_local_static.go) together with the pion/rtp packetizer/sequencer
+   contract they drive.  The transcription is
    written once over an abstract arithmetic [arith] for the float64 expressions;
    two instances follow: [float_arith] (IEEE-754 binary64, round to nearest
    even, as rationals) used for the correspondence check, and [exact_arith]
